@@ -142,11 +142,15 @@ def _canonicalize_tangent_for_primitive_jvp(primal, tangent):
 
 def _instantiate_zero_tangents(tree):
     """Materialize symbolic ``Zero`` tangents into concrete zero arrays."""
-    return jtu.tree_map(
-        jax_autodiff.instantiate_zeros,
-        tree,
-        is_leaf=_is_ad_zero,
-    )
+
+    def _instantiate(t):
+        if _is_ad_zero(t):
+            # The symbolic zero of a non-differentiable (integer / boolean)
+            # output may carry the primal aval; its tangent type is float0.
+            t = jax_autodiff.Zero(t.aval.to_tangent_aval())
+        return jax_autodiff.instantiate_zeros(t)
+
+    return jtu.tree_map(_instantiate, tree, is_leaf=_is_ad_zero)
 
 
 def _zero_tangent_like(v):
